@@ -312,8 +312,26 @@ fn project(cfg: &Cfg, w: &World) -> Value {
     for (name, c) in &w.counters {
         cnt.insert(name.clone(), json!(c.load(Ordering::Relaxed)));
     }
+    // what the API shows a route-server client as the route server's choice for it (TableQuery::RsLocal): per client peer and
+    // prefix the (session, class) of the path listed, or null
+    let mut rsview = serde_json::Map::new();
+    for sc in &cfg.sessions {
+        if sc.role != "RsClient" || rsview.contains_key(&sc.peer) {
+            continue;
+        }
+        let mut per = serde_json::Map::new();
+        for (k, _) in &cfg.prefixes {
+            per.insert(k.clone(), Value::Null);
+        }
+        for d in w.table.destinations(table::TableQuery::RsLocal(sc.addr), fam, vec![], false) {
+            if let Some(e) = d.paths.first() {
+                per.insert(nm.prefix(&d.net), json!({"sess": nm.sess(&e.source), "cls": nm.cls(&e.attr), "n": d.paths.len()}));
+            }
+        }
+        rsview.insert(sc.peer.clone(), Value::Object(per));
+    }
     let st = w.table.state(fam);
-    json!({"ent": ent, "elig": elig, "stale": stale, "llgr": llgr, "stats": stats, "cnt": cnt,
+    json!({"ent": ent, "elig": elig, "stale": stale, "llgr": llgr, "stats": stats, "cnt": cnt, "rsview": rsview,
            "totals": {"dest": st.num_destination, "path": st.num_path, "accepted": st.num_accepted}})
 }
 
